@@ -21,6 +21,7 @@ verus! {
 //@include spec/script.rs
 //@include spec/script_tok.rs
 //@include spec/tx.rs
+//@include spec/sighash.rs
 //@include shims/varint.rs
 impl Script {
 //@stub Script::to_bytes
